@@ -139,7 +139,7 @@ PROPS = {
                 "about one run in twelve additionally enumerates every command sequence of length <= 4. evaluations counts runs; stepper_runs counts executions with a stepper. "
                 "non-trivial = the callback was consulted and at least one command was drawn; distinct = distinct (program, fault plan, command tape) hash",
         "assumptions": COMMON_ASSUMPTIONS[:1] + ["ANSWER:/ERROR: lines printed by the evaluator on 'next' are debugger output, not program effects (stdout is redirected)", "programs terminate within the host stack (recursion depth <= 50)"],
-        "must_hit": ["fault:stepper-next", "fault:stepper-in", "fault:stepper-out", "exhaustive_prefix_enumerations"],
+        "must_hit": ["fault:stepper-next", "fault:stepper-in", "fault:stepper-out", "exhaustive_prefix_enumerations", "shipped_debugger_runs"],
         "race": False,
     },
 }
